@@ -1,19 +1,29 @@
 """EXTENSION (not one of C01-C20): the two adaptive SMC samplers of elfi/methods/inference/samplers.py.
 
 AdaptiveDistanceSMC ("AD", Prangle 2017 algorithm 5, over elfi.AdaptiveDistance) and AdaptiveThresholdSMC ("AT",
-Simola et al. 2021).  A mismatch is reported as drift `E:<clause>` - never as a violation.
+Simola et al. 2021).  A mismatch is reported as drift `E:<clause>` - never as a violation.  Entry point:
+check_adaptive(ctx).
 
 O1: AdaptiveSmc.tla: the round structure of both samplers as explicit state machines.  AD: batches of rows with an
     arbitrary distance under every function in force, nested acceptance against [inf] + every earlier population
     threshold, N = ceil(n / quantile) acceptances per round, one new distance function per finished round (scale from
-    all rows of the round), re-ranking, population = best n, threshold = its largest new distance.  AT: one quantile
-    estimate per finished round, next round only while the estimate is below q_threshold and round < max_iter - 1,
-    threshold = quantile of the previous population.  Invariants checked exhaustively for small bounds; refuted
-    controls: newest-threshold-only acceptance, adaptation data = accepted rows only, no re-ranking, stale quantile in
-    the stop test.
+    all rows of the round), re-ranking, population = best n, threshold = its largest new distance, continued sampling
+    (further sample() calls keep populations, thresholds and functions).  AT: one quantile estimate per finished
+    round, next round only while the estimate is below q_threshold and round < max_iter - 1, threshold = quantile of
+    the previous population.  Invariants checked exhaustively for small bounds; refuted controls: newest-threshold-
+    only acceptance, adaptation data = accepted rows only, no re-ranking, distance node re-initialised by a continuing
+    call, stale quantile in the stop test.
 O3: real runs of both samplers on small dyadic models; every batch the sampler consumed and the inner Rejection's
     sample are logged through subclass hooks; numpy / scipy oracle fields (T4) give the nested distances of every
     simulated row, the scales, and the densities of the weight relation; AdaptiveSmc_Trace.tla decides every clause.
+    Corrupted copies of recorded traces must be rejected with the expected clause (T5 i).
+
+Findings on the unchanged tree (see PINNED_AT_CONTINUED and float_ceil_art):
+ * AdaptiveThresholdSMC: a second sample() call on the same sampler raises TypeError (drift E:continued-sampling-returns,
+   pinned scenario, reproduced on every run).
+ * Rejection stop rule under a threshold: ceil(n / (n_acceptable / n_sim) / batch_size) is evaluated in doubles, so with
+   n_acceptable = n the sampler sometimes consumes one batch more (e.g. 8 / (8 / 49) > 49).  This is the float boundary
+   "ceil of an exactly integral quotient" of DESIGN 4 (T2): allowed both ways through the oracle field art, counted in a note.
 """
 import math
 import random
@@ -202,10 +212,26 @@ def weight_fields(prior, names, pop, prev):
     return e
 
 
+def float_ceil_art(n, accs, bs):
+    """ORACLE for the float boundary of Rejection._update_objective_n_batches: art[b] = 1 iff after batch b + 1 the target n was reached
+    (accs[b] = accepted rows so far, as held by the buffer of n + bs rows) and the code's estimate of the batches needed,
+    ceil((n / (n_acceptable / n_sim) + margin) / batch_size) evaluated in doubles as the code does, still exceeds the batches consumed."""
+    art = []
+    for b, acc in enumerate(accs):
+        nb = b + 1
+        acc = min(int(acc), n + bs)
+        if acc < n:
+            art.append(0)
+            continue
+        rate = acc / (nb * bs)
+        art.append(int(math.ceil((n / rate + .2 * bs * int(acc < n)) / bs) > nb))
+    return art
+
+
 def pop_event(**kw):
     e = dict(ev="pop", raised="", r=0, sizes=[], nb=0, nsim=0, ds=[], thr_rep=0, ws=[], wn=[], pp=[], lw=[], lp=[], lq=[], cov=[], wvar=[],
              ncols=[], nest=[], rows=[], rows_elfi=[], w_elfi=[], w_orc=[], cand=[], cnew=[], pop=[],
-             rowd=[], thr_force=0, a=0, qest=-1, mr=-1, npops=0, ndf=0, cont=0)
+             rowd=[], thr_force=0, a=0, qest=-1, mr=-1, npops=0, ndf=0, cont=0, art=[])
     e.update(kw)
     return e
 
@@ -285,7 +311,12 @@ def record_ad(sc):
                 cindex.setdefault(rowkey(cP[c], cS[c]), c + 1)
             pP = np.column_stack([pop.outputs[n] for n in names])
             pS = np.column_stack([pop.outputs[s] for s in sums])
+            accs, acc = [], 0
+            for b in bl:
+                acc += len(b["D"]) if b["thr"] is None else int(np.sum(np.all(b["D"] <= np.asarray(b["thr"]), axis=1)))
+                accs.append(acc)
             e = pop_event(r=i, sizes=[int(len(v)) for v in pop.outputs.values()], nb=len(bl), nsim=int(pop.n_sim),
+                          art=float_ceil_art(tr["N"], accs, sc["bs"]) if i else [0] * len(bl),
                           ds=[f6_elfi(d) for d in np.asarray(pop.outputs["d"]).reshape(-1)], thr_rep=f6_elfi(pop.threshold),
                           ncols=[int(b["D"].shape[1]) for b in bl],
                           nest=[] if not bl or bl[0]["thr"] is None else [f6_elfi(t) for t in bl[0]["thr"]],
@@ -353,7 +384,11 @@ def record_at(sc):
             mr = -1
             if i < len(mrs) and math.isfinite(mrs[i]) and mrs[i] >= 0:
                 mr = int(min(10 ** 9, round(mrs[i] * 1000)))
-            e = pop_event(r=i, sizes=[int(len(v)) for v in pop.outputs.values()], nb=len(rd) // sc["bs"], nsim=int(pop.n_sim),
+            nb = len(rd) // sc["bs"]
+            tf = float("inf") if i >= len(thrs) or thrs[i] is None else float(thrs[i])
+            accs = [sum(1 for d in rd[:(b + 1) * sc["bs"]] if d <= tf) for b in range(nb)]
+            e = pop_event(r=i, sizes=[int(len(v)) for v in pop.outputs.values()], nb=nb, nsim=int(pop.n_sim),
+                          art=float_ceil_art(sc["n"], accs, sc["bs"]) if i else [0] * nb,
                           ds=[int(round(float(d) * 8)) for d in pop.discrepancies], thr_rep=int(round(float(pop.threshold) * 8)),
                           rowd=[int(round(d * 8)) if math.isfinite(d) else BAD for d in rd],
                           thr_force=INF if i >= len(thrs) or thrs[i] is None else int(round(float(thrs[i]) * 8)),
@@ -406,9 +441,11 @@ def scenarios(ctx):
     # pinned: q_threshold so low that the run must stop after the first population; max_iter = 1
     out.append(dict(kind="AT", prior="uniform", n=5, bs=2, max_iter=4, qthr=0.05, q0=[1, 2], basis=3, mp=1, seed=21))
     out.append(dict(kind="AT", prior="normal", n=4, bs=3, max_iter=1, qthr=0.9, q0=[1, 4], basis=2, mp=1, seed=22))
+    # pinned: the float boundary of the inner Rejection's stop rule (8 / (8 / 49) > 49 in doubles: one batch beyond n acceptances)
+    out.append(dict(kind="AT", prior="normal", n=8, bs=1, max_iter=2, qthr=0.7, q0=[1, 4], basis=4, mp=3, seed=2129692660, pinned="float-ceil"))
     if PIN_AT_CONTINUED:
         out.append(dict(PINNED_AT_CONTINUED))
-    for i in range(n_at - 2):
+    for i in range(n_at - 3):
         n = rnd.choice([4, 5, 6, 8])
         out.append(dict(kind="AT", prior=["uniform", "normal", "hier"][i % 3], n=n, bs=rnd.choice([1, 2, 3, 4]),
                         max_iter=rnd.choice([2, 3, 3, 4, 5]), qthr=rnd.choice([0.5, 0.7, 0.9, 0.9, 0.99, 0.99]),
@@ -642,6 +679,7 @@ def check_adaptive(ctx):
         ctx.negative_controls.append(dict(run="corrupted trace / AdaptiveSmc_Trace: " + what, refuted=want))
     npops = {"AD": 0, "AT": 0}
     early = 0
+    nart = sum(1 for _sc, tr in kept for e in tr["events"] if e["ev"] == "pop" and any(e["art"][:-1]))
     for (sc, tr), v in zip(kept, verdicts):
         pops = [e for e in tr["events"] if e["ev"] == "pop"]
         npops[sc["kind"]] += len(pops)
@@ -658,9 +696,10 @@ def check_adaptive(ctx):
     ctx.trusted_base += ["numpy std / sqrt and scipy densities as oracle fields of the adaptive-SMC traces (T4)",
                          "harness hooks: subclass overrides of update / _extract_population / DensityRatioEstimation.max_ratio that only record"]
     ctx.notes.append("adaptive SMC extension: %d AD runs (%d populations), %d AT runs (%d populations, %d stopped before max_iter), %d excluded "
-                     "(oracle outside the fixed-point domain)" % (sum(1 for sc, _t in kept if sc["kind"] == "AD"), npops["AD"],
+                     "(oracle outside the fixed-point domain); %d rounds consumed a batch beyond the target through the float boundary of the "
+                     "inner Rejection's ceil (allowed both ways)" % (sum(1 for sc, _t in kept if sc["kind"] == "AD"), npops["AD"],
                                                                   sum(1 for sc, _t in kept if sc["kind"] == "AT"), npops["AT"], early,
-                                                                  len(scs) - len(kept)))
+                                                                  len(scs) - len(kept), nart))
     if kept:
         sc, tr = kept[0]
         ctx.sample(dict(scenario=sc, populations=[{k: e[k] for k in ("r", "nb", "nsim", "nest", "cand", "pop", "ds", "thr_rep", "w_elfi", "w_orc")}
